@@ -161,7 +161,7 @@ func CheckExec(prop, tier string) int {
 		if len(mcProgs) >= nMC {
 			break
 		}
-		if Size(progs[i]) <= 9 {
+		if Size(progs[i]) <= 9 && !IsCyclic(progs[i]) {
 			mcProgs = append(mcProgs, progs[i])
 		}
 	}
@@ -246,7 +246,7 @@ func CheckExec(prop, tier string) int {
 		maxConf = 4000
 	}
 	for _, t := range traces {
-		if len(confTraces) < maxConf && len(t.Evs) <= 60 {
+		if len(confTraces) < maxConf && len(t.Evs) <= 60 && !IsCyclic(progs[t.Prog-1]) {
 			confTraces = append(confTraces, t)
 		}
 	}
